@@ -16,6 +16,7 @@ func init() {
 	register(&Rule{ID: "C03.R3", Prop: "C03", Floor: 3, Doc: "one window per block: state and block stored before Store.ApplyBlock, nothing after; nothing after Store.RevertBlock", Run: c03r3})
 	register(&Rule{ID: "C03.R4", Prop: "C03", Floor: 2, Doc: "Height and best-index entry are written together without a flush between", Run: c03r4})
 	register(&Rule{ID: "C03.R5", Prop: "C03", Floor: 1, Doc: "a successful reorg is flushed before it is reported", Run: c03r5})
+	register(&Rule{ID: "C03.R7", Prop: "C03", Floor: 1, Doc: "catch-up: resubmitted blocks the store already holds still advance the state the reorg gate compares (same check as C01.R12)", Run: c01r12})
 	register(&Rule{ID: "C03.R6", Prop: "C03", Floor: 1, Doc: "reopen derives the tip from Height → BestIndex → State only", Run: c03r6})
 }
 
